@@ -3,7 +3,7 @@
    edits, histories).  `repaired c` = the base.py default-argument repair and the SCCReader reset are in place. *)
 From Coq Require Import List ZArith Bool.
 From PV Require Import lib.Sx lib.Result lib.Str model.Store model.Iso
-     proofs.StoreFacts proofs.IsoFacts proofs.RegionFacts proofs.IsoExamples.
+     proofs.StoreFacts proofs.IsoFacts proofs.RegionFacts proofs.SccReadFacts proofs.IsoExamples.
 Import ListNotations.
 
 (* what a reader allocates for its result is a fresh region, closed under references, and nothing that existed is
@@ -76,16 +76,26 @@ Proof. exact read_reader_independent. Qed.
 Print Assumptions C10_read_reader_independent.
 
 (* what is returned is a function of (reader kind, document): not of the store, i.e. not of anything read, written
-   or edited before.  Full statement (all six reader models):
-     forall c rk ri t st st' ri' s n, repaired c -> read c rk ri t st = (st', ri', s) ->
-       snap n st' s = expected n rk t
-   Proved for the five tree-building reader models; the SCC model (result assembled from the PreCaption stash) is
-   covered by C10_read_reader_independent, C10_read_allocates_fresh_closed and the example below only. *)
-Theorem C10_read_result_function_of_document_partial : forall c rk ri t st st' ri' s n,
+   or edited before, and not of the reader object - all six reader models, every snapshot depth >= 4 (the result of
+   a read is at least 4 objects deep: set / dict / CaptionList / Caption; the model's own snapshots use depth 64) *)
+Theorem C10_read_result_function_of_document : forall c rk ri t st st' ri' s n,
+  repaired c -> read c rk ri t st = (st', ri', s) ->
+  snap (S (S (S (S n)))) st' s = expected n rk t.
+Proof. exact read_result_function_of_document. Qed.
+Print Assumptions C10_read_result_function_of_document.
+
+Theorem C10_read_same_document_same_result : forall c rk ri1 ri2 t st1 st2 st1' st2' r1 r2 s1 s2 n,
+  repaired c -> read c rk ri1 t st1 = (st1', r1, s1) -> read c rk ri2 t st2 = (st2', r2, s2) ->
+  snap (S (S (S (S n)))) st1' s1 = snap (S (S (S (S n)))) st2' s2.
+Proof. exact read_same_document_same_result. Qed.
+Print Assumptions C10_read_same_document_same_result.
+
+(* for the five tree-building reader models the result is, at EVERY depth, the document tree itself *)
+Theorem C10_read_result_is_document_tree : forall c rk ri t st st' ri' s n,
   fix2 c = true -> (rk =? R_SCC)%Z = false -> read c rk ri t st = (st', ri', s) ->
   snap n st' s = clean_trunc n (mark_defaults rk t).
 Proof. exact read_result_function_of_document_partial. Qed.
-Print Assumptions C10_read_result_function_of_document_partial.
+Print Assumptions C10_read_result_is_document_tree.
 
 (* before the repairs the statements are false of the faithful model; the witnesses are the replayed histories *)
 Theorem C10_shared_default_refuted :
